@@ -580,6 +580,39 @@ def pype_out_containers(rng, case):
     return case
 
 
+def retry_in_loop(rng, case):
+    """a retried step inside foreach / while that fails in several iterations: every iteration starts
+    its own retry loop, with the back-off schedule from the start and sleep read at that moment."""
+    kind = rng.choice(['list', 'expr', 'linear', 'list'])
+    retry = {'max': rng.choice([3, 4])}
+    if kind == 'list':
+        retry['sleep'] = {'l': rng.choice([[HALF, 1, 2], [1, 2], [0, HALF, 1]])}
+        if rng.random() < 0.4:
+            retry['backoff'] = rng.choice(['fixed', 'jitter'])
+    elif kind == 'expr':
+        retry['sleep'] = '{i}'
+    else:
+        retry.update({'sleep': 1, 'backoff': rng.choice(['linear', 'exponential'])})
+    fails_until = rng.choice([2, 3])
+    st = {'body': 'fail', 'retry': retry,
+          'in': [['ptag', 'main/steps/0'],
+                 ['vfail', {'d': [['err', 'ValueError'], ['msg', 'again'],
+                                  ['when', py(['cmp', 'lt', name('retryCounter'), ['int', fails_until]])]]}]]}
+    if rng.random() < 0.7:
+        st['foreach'] = {'l': rng.choice([[1, 2, 3], [2, 1], [1, 1]])}
+    else:
+        st['while'] = {'max': 3}
+        if kind == 'expr':
+            retry['sleep'] = '{whileCounter}'
+    for g in case['lib'][0][1]:
+        if g[0] == 'steps':
+            g[1] = [st] + (g[1] or [])
+            break
+    else:
+        case['lib'][0][1].insert(0, ['steps', [st]])
+    return case
+
+
 def walrus_shadow(rng, case):
     """a !py decorator that binds a name with := , then later !py decorators reading the context key of
     the same name (as run / skip / swallow, also inside loops): the binding must be gone."""
